@@ -9,14 +9,18 @@ Lemma harness_user_law : @UserLaw harness_user.
 Proof.
   split; cbn [ufn harness_user]; unfold harness_ufn; intros tag g.
   - intros ps. destruct (N.eqb tag 6); [intros H; inversion H; discriminate|].
-    destruct (N.eqb tag 7); [|discriminate]. intros H. inversion H. destruct (N.leb _ _); discriminate.
+    destruct (N.eqb tag 7); [intros H; inversion H; destruct (N.leb _ _); discriminate|].
+    destruct (N.eqb tag 9); [|discriminate]. intros H. inversion H. discriminate.
   - intros xs ys. destruct (N.eqb tag 6).
     + intros H _ _. inversion H; subst g. cbn [nsum fold_right]. fold (nsum ys). rewrite nsum_app. reflexivity.
-    + destruct (N.eqb tag 7); [|discriminate]. intros H _ _. inversion H; subst g. clear H.
-      rewrite nsum_app. destruct (N.leb (nsum xs) 5) eqn:E.
-      * cbn [nsum fold_right]. fold (nsum ys). destruct (N.leb (nsum xs + nsum ys) 5); reflexivity.
-      * apply N.leb_gt in E. destruct (N.leb (nsum xs + nsum ys) 5) eqn:E'; [|reflexivity].
-        apply N.leb_le in E'. lia.
+    + destruct (N.eqb tag 7).
+      * intros H _ _. inversion H; subst g. clear H.
+        rewrite nsum_app. destruct (N.leb (nsum xs) 5) eqn:E.
+        -- cbn [nsum fold_right]. fold (nsum ys). destruct (N.leb (nsum xs + nsum ys) 5); reflexivity.
+        -- apply N.leb_gt in E. destruct (N.leb (nsum xs + nsum ys) 5) eqn:E'; [|reflexivity].
+           apply N.leb_le in E'. lia.
+      * destruct (N.eqb tag 9); [|discriminate].
+        intros H _ _. inversion H; subst g. cbn [nsum fold_right]. fold (nsum ys). rewrite nsum_app. reflexivity.
 Qed.
 
 Lemma nsum_snoc a c : nsum (a ++ [c]) = (nsum a + c)%N.
@@ -27,9 +31,12 @@ Proof.
   split; cbn [ufn harness_user]; unfold harness_ufn; intros tag g xs ys.
   destruct (N.eqb tag 6).
   - intros H _ _. inversion H; subst g. rewrite nsum_snoc, nsum_app. reflexivity.
-  - destruct (N.eqb tag 7); [|discriminate]. intros H _ _. inversion H; subst g. clear H.
-    rewrite nsum_app. destruct (N.leb (nsum ys) 5) eqn:E.
-    + rewrite nsum_snoc. destruct (N.leb (nsum xs + nsum ys) 5); reflexivity.
-    + apply N.leb_gt in E. destruct (N.leb (nsum xs + nsum ys) 5) eqn:E'; [|reflexivity].
-      apply N.leb_le in E'. lia.
+  - destruct (N.eqb tag 7).
+    + intros H _ _. inversion H; subst g. clear H.
+      rewrite nsum_app. destruct (N.leb (nsum ys) 5) eqn:E.
+      * rewrite nsum_snoc. destruct (N.leb (nsum xs + nsum ys) 5); reflexivity.
+      * apply N.leb_gt in E. destruct (N.leb (nsum xs + nsum ys) 5) eqn:E'; [|reflexivity].
+        apply N.leb_le in E'. lia.
+    + destruct (N.eqb tag 9); [|discriminate].
+      intros H _ _. inversion H; subst g. rewrite nsum_snoc, nsum_app. reflexivity.
 Qed.
